@@ -229,14 +229,14 @@ int Symbols::lookup(const char *name, uint32_t *address)
 
 int Symbols::iterate(SymbolsIter *iter)
 {
-  MemoryPool *memory_pool = this->memory_pool;
-
   if (iter->end_flag == 1) { return -1; }
   if (iter->memory_pool == nullptr)
   {
     iter->memory_pool = this->memory_pool;
     iter->ptr = 0;
   }
+
+  MemoryPool *memory_pool = iter->memory_pool;
 
   while (memory_pool != nullptr)
   {
@@ -255,6 +255,8 @@ int Symbols::iterate(SymbolsIter *iter)
     }
 
     memory_pool = memory_pool->next;
+    iter->memory_pool = memory_pool;
+    iter->ptr = 0;
   }
 
   iter->end_flag = 1;
